@@ -923,7 +923,21 @@ NODES = {
                    {"parent_class_list": ("Some n_ps", ("opt", "ParentClassList")), "body": ("Some n_b", ("opt", "Body"))}),
     "Body": ([("n_b", "list item")], {"items": ("n_b", ("list", "BodyItem"))}),
 }
+FREE_FNS = {"check_template_args": ("list leaf -> list (option argv) -> rng -> M unit", ["leaves", "avs", "rng"], "unit"),
+            "index_name_value": ("value -> M (name * rng)", [("node", "Value")], ("tuple", ["name", "rng"])),
+            "resolve_class_ref_as_class": ("classref -> M N", [("node", "ClassRef")], "RecordId"),
+            "resolve_class_ref_as_multiclass": ("classref -> M N", [("node", "ClassRef")], "MulticlassId")}
 NODES.update({
+    "Def": ([("n_nm", "option value"), ("n_r", "rng"), ("n_ps", "list classref"), ("n_b", "list item")],
+            {"name": ("n_nm", ("opt", "Value")), "record_body": ("Some (n_ps, n_b)", ("opt", "RecordBody"))}),
+    "Defm": ([("n_nm", "option value"), ("n_r", "rng"), ("n_ps", "list classref")],
+             {"name": ("n_nm", ("opt", "Value")), "parent_class_list": ("Some n_ps", ("opt", "ParentClassList"))}),
+    "PositionalArgValue": ([], {"value": ("Some v_pv", ("opt", "Value"))}),
+    "NamedArgValue": ([], {"value": ("Some v_nv", ("opt", "Value"))}),
+    "ArgValueList": ([("n_args", "list arg")], {"arg_values": ("n_args", ("list", "ArgValue"))}),
+    "ClassRef": ([("n_i", "ident"), ("n_args", "list arg"), ("n_r", "rng")],
+                 {"name": ("Some n_i", ("opt", "Identifier")), "arg_value_list": ("Some n_args", ("opt", "ArgValueList"))}),
+    "ParentClassList": ([("n_ps", "list classref")], {"classes": ("n_ps", ("list", "ClassRef"))}),
     "Value": ([("n_v", "value")], {"inner_values": ("value_inners %s", ("list", "InnerValue"))}),
     "InnerValue": ([("n_x", "inner")], {"simple_value": ("Some (inner_simple %s)", ("opt", "SimpleValue")),
                                         "suffixes": ("inner_sufs %s", ("list", "ValueSuffix"))}),
@@ -941,16 +955,18 @@ NODES.update({
 NODE_COQ = {"Identifier": "ident", "StatementList": "list stmt", "Statement": "stmt", "Value": "value", "Type": "ty",
             "TemplateArgList": "list targ", "TemplateArgDecl": "targ", "RecordBody": "(list classref * list item)",
             "ParentClassList": "list classref", "Body": "list item", "BodyItem": "item", "LetList": "list value",
-            "LetItem": "value", "ForeachIterator": "(ident * feinit)", "ForeachIteratorInit": "feinit", "Integer": "N"}
+            "LetItem": "value", "ForeachIterator": "(ident * feinit)", "ForeachIteratorInit": "feinit", "Integer": "N",
+            "ArgValue": "arg", "ArgValueList": "list arg", "ClassRef": "classref"}
 IX_RET = {"StatementList": "unit", "Statement": "unit", "Value": "mty", "Type": "mty", "TemplateArgList": "unit",
           "TemplateArgDecl": "unit", "RecordBody": "unit", "ParentClassList": "unit", "Body": "unit", "BodyItem": "unit",
-          "LetList": "unit", "LetItem": "unit", "ForeachIterator": "(name * N)", "ForeachIteratorInit": "mty", "Integer": "N"}
-IX_TY = {"Value": "mty", "Type": "mty", "ForeachIteratorInit": "mty", "Integer": "i64", "ForeachIterator": "(name * N)"}
+          "LetList": "unit", "LetItem": "unit", "ForeachIterator": "(name * N)", "ForeachIteratorInit": "mty", "Integer": "N",
+          "ArgValue": "argv", "ArgValueList": "(list (option argv))"}
+IX_TY = {"ArgValue": "argv", "ArgValueList": "avs", "Value": "mty", "Type": "mty", "ForeachIteratorInit": "mty", "Integer": "i64", "ForeachIterator": "(name * N)"}
 # enum nodes: variant -> (CoreAst constructor pattern, bound node type or None, how the rendering of that impl is called)
 ENUM_NODES = {
-    "Statement": ("stmt", [("Include", "SInclude r t", None), ("Assert", "SAssert c m", ("Assert", "c m")),
-                           ("Class", "SClass i ta ps b", ("Class", "i ta ps b")), ("Def", "SDef nm r ps b", None),
-                           ("Defm", "SDefm nm r ps", None), ("Defset", "SDefset t i b", ("Defset", "t i b")),
+    "Statement": ("stmt", [("Include", "SInclude r t", ("Include", "r t")), ("Assert", "SAssert c m", ("Assert", "c m")),
+                           ("Class", "SClass i ta ps b", ("Class", "i ta ps b")), ("Def", "SDef nm r ps b", ("Def", "nm r ps b")),
+                           ("Defm", "SDefm nm r ps", ("Defm", "nm r ps")), ("Defset", "SDefset t i b", ("Defset", "t i b")),
                            ("Defvar", "SDefvar i v", ("Defvar", "i v")), ("Dump", "SDump v", ("Dump", "v")),
                            ("Foreach", "SForeach i init b", ("Foreach", "i init b")), ("If", "SIf c th el", ("If", "c th el")),
                            ("Let", "SLet vs b", ("Let", "vs b")), ("MultiClass", "SMulticlass i ta ps b", ("MultiClass", "i ta ps b"))]),
@@ -1051,7 +1067,7 @@ class IxGen:
                     self.no(line, "Type::Record(%s, %s)" % (ta, tb))
                 return "MRecord %s %s" % (atom(a), atom(b)), "mty"
             ctors = {"Record::new": ("RecordV", ["name", "RecordKind", "rng"]), "Multiclass::new": ("McV", ["name", "rng"]),
-                     "Defset::new": ("leaf:LDefset", ["name", "mty", "rng"]), "Variable::new": ("leaf:LVar", ["name", "mty", "VariableKind", "rng"]),
+                     "Defset::new": ("leaf:LDefset", ["name", "mty", "rng"]), "Defm::new": ("leaf:LDefm", ["name", "rng"]), "Variable::new": ("leaf:LVar", ["name", "mty", "VariableKind", "rng"]),
                      "TemplateArgument::new": ("leaf:LTArg", ["name", "mty", "bool", "rng"]),
                      "RecordField::new": ("leaf:LField", ["name", "mty", "RecordId", "rng"])}
             if name in ctors:
@@ -1080,6 +1096,8 @@ class IxGen:
                     return "mkLeaf LTArg %s %s %s %s" % (cs[0], cs[1], cs[2], cs[3]), "leaf"
                 if lk == "LField":
                     return "mkLeaf LField %s %s false %s" % (cs[0], cs[1], cs[3]), "leaf"
+                if lk == "LDefm":
+                    return "mkLeaf LDefm %s MUnknown false %s" % (cs[0], cs[1]), "leaf"
                 return "mkLeaf LDefset %s %s false %s" % (cs[0], cs[1], cs[2]), "leaf"
             self.no(line, "call of %s" % name)
         if k == "tuple":
@@ -1090,6 +1108,12 @@ class IxGen:
             if t != "bool":
                 self.no(e[3], "`!` on %s" % (t,))
             return "negb %s" % atom(c), "bool"
+        if k == "bin" and e[1] == "==":
+            a, ta = self.tr(e[2], env)
+            b, tb = self.tr(e[3], env)
+            if ta == tb and ta in ID_SYM:
+                return "%s =? %s" % (atom(a), atom(b)), "bool"
+            self.no(e[4], "== on %s / %s" % (ta, tb))
         if k == "field":
             c, t = self.tr(e[1], env)
             if t == "rng" and e[2] == "range":
@@ -1128,9 +1152,14 @@ class IxGen:
                         if ta != "RecordFieldId":
                             self.no(line, "record_field(%s)" % (ta,))
                         return a, ("leafH",)
-                    if m in ("record_mut", "multiclass_mut") and len(args) == 1:
+                    if m == "multiclass" and len(args) == 1:
                         a, ta = self.tr(args[0], env)
-                        if ta != {"record_mut": "RecordId", "multiclass_mut": "MulticlassId"}[m]:
+                        if ta != "MulticlassId":
+                            self.no(line, "multiclass(%s)" % (ta,))
+                        return a, ("mcH",)
+                    if m in ("record_mut", "multiclass_mut", "defm_mut", "defset_mut") and len(args) == 1:
+                        a, ta = self.tr(args[0], env)
+                        if ta != {"record_mut": "RecordId", "multiclass_mut": "MulticlassId", "defm_mut": "DefmId", "defset_mut": "DefsetId"}[m]:
                             self.no(line, "%s(%s)" % (m, ta))
                         return a, ("mutH", m)
             # [a, b].into_iter().flatten()
@@ -1153,10 +1182,16 @@ class IxGen:
                     return ex, self.node_ty(rt)
                 if T == "Value" and m == "syntax" and not args:
                     return c, ("syntax", "Value")
+                if T in ("Include", "Def", "Defm") and m == "syntax" and not args:
+                    return "n_r", ("syntax", "range")
+                if T in ("PositionalArgValue", "NamedArgValue") and m == "syntax" and not args:
+                    return "v_ar", ("syntax", "range")
+                if T == "ClassRef" and m == "syntax" and not args:
+                    return ("n_r" if c == "self" else "classref_rng %s" % atom(c)), ("syntax", "range")
                 if T == "Type" and False:
                     pass
             if isinstance(t, tuple) and t[0] == "syntax" and m == "text_range" and not args:
-                return "value_rng %s" % atom(c), "rng"
+                return (c if t[1] == "range" else "value_rng %s" % atom(c)), "rng"
             if isinstance(t, tuple) and t[0] == "recH" and m == "find_field" and len(args) == 2:
                 sm_arg = args[0]
                 while sm_arg[0] == "un":
@@ -1251,6 +1286,8 @@ class IxGen:
             if recv[0] == "path" and recv[1] == ["ctx"]:
                 if m == "current_file_id" and not args:
                     return "", "get current_file", "FileId"
+                if m == "next_anonymous_def_name" and not args:
+                    return "", "next_anonymous ;; ret (anon_name 0)", "name"
                 if m == "error" and len(args) == 2:
                     r, rt = self.tr(args[0], env)
                     if rt != "rng":
@@ -1287,11 +1324,41 @@ class IxGen:
                             self.no(line, "%s(%s)" % (m, t))
                         return "", "add_leaf %s" % atom(c), {"add_variable": "VariableId", "add_template_argument": "TemplateArgumentId",
                                                          "add_record_field": "RecordFieldId"}[m]
+                    if m == "add_defm" and len(args) == 2:          # the `is_global` flag feeds the outline only
+                        c, t = self.tr(args[0], env)
+                        if t != "leaf":
+                            self.no(line, "add_defm(%s)" % (t,))
+                        return "", "add_leaf %s" % atom(c), "DefmId"
+                    if m == "add_anonymous_defm" and len(args) == 1:
+                        c, t = self.tr(args[0], env)
+                        if t != "leaf":
+                            self.no(line, "add_anonymous_defm(%s)" % (t,))
+                        return "", "add_leaf_nopos %s" % atom(c), "DefmId"
+                    if m == "add_anonymous_def" and len(args) == 1:
+                        c, t = self.tr(args[0], env)
+                        if not (isinstance(t, tuple) and t[0] == "RecordV" and t[2] == "false"):
+                            self.no(line, "add_anonymous_def(%s)" % (t,))
+                        return "", "add_anonymous_def %s %s" % (t[1], t[3]), "RecordId"
                     if m == "add_defset" and len(args) == 1:
                         c, t = self.tr(args[0], env)
                         if t != "leaf":
                             self.no(line, "add_defset(%s)" % (t,))
                         return "", "add_defset %s" % atom(c), "DefsetId"
+        if e[0] == "call" and e[1][0] == "path" and len(e[1][1]) == 1 and e[1][1][0] in FREE_FNS:
+            fname = e[1][1][0]
+            cty, want, ret = FREE_FNS[fname]
+            args = [a for a in e[2] if not (a[0] == "path" and a[1] == ["ctx"])]
+            if len(args) != len(want):
+                self.no(line, "%s: arity" % fname)
+            cs = []
+            for a, w in zip(args, want):
+                c, t = self.tr(a, env)
+                if t != w:
+                    self.no(line, "%s: argument of type %s, expected %s" % (fname, t, w))
+                cs.append(atom(c))
+            if ("fn:" + fname) not in self.used:
+                self.used.append("fn:" + fname)
+            return "", "ix_%s %s" % (fname, " ".join(cs)), ret
         if e[0] == "call" and e[1][0] == "path" and e[1][1] == ["FileRange", "new"] and len(e[2]) == 2:
             a0 = e[2][0]
             if not (a0[0] == "mcall" and a0[1] == ("path", ["ctx"], a0[1][2]) and a0[2] == "current_file_id"):
@@ -1336,6 +1403,12 @@ class IxGen:
             q = "q%d" % self.qn
             env[q] = (q, t[1])
             return pre + p2 + "%s <- lift %s ;; " % (q, atom(c)), ("path", [q], e[2])
+        if e and e[0] == "call" and e[1][0] == "path" and e[1][1] == ["FileRange", "new"] and len(e[2]) == 2:
+            pre, m, t = self.m_expr(e, env)
+            self.qn = getattr(self, "qn", 0) + 1
+            q = "loc%d" % self.qn
+            env[q] = (q, "rng")
+            return pre + "%s <- (%s) ;; " % (q, m), ("path", [q], e[3])
         if e and e[0] in ("closure", "block", "match", "if", "iflet"):
             return "", e
         pre, out = "", []
@@ -1360,6 +1433,10 @@ class IxGen:
         if i == len(stmts):
             if tail is None:
                 self.no(0, "body without a tail")
+            if tail[0] == "unit_tt":
+                return indent + "ret tt"
+            if tail[0] == "raw_m":
+                return indent + tail[1]
             if tail[0] == "path" and tail[1] == ["None"]:
                 return indent + "none"
             if tail[0] == "call" and tail[1][0] == "path" and tail[1][1] == ["Some"] and len(tail[2]) == 1:
@@ -1381,8 +1458,10 @@ class IxGen:
                     return indent + pre0 + "\n" + self.value_enum(("match", sc, tail[2], tail[3]), env, indent, t[1], scrut_code=c)
                 return self.match_tail(tail, env, indent)
             try:
-                pre, m, t = self.m_expr(tail, env)
-                return indent + pre + m
+                pre0, t2 = self.hoist(tail, env)
+                pre, m, t = self.m_expr(t2, env)
+                self.last_tail_ty = t
+                return indent + pre0 + pre + m
             except Refuse:
                 pre0, x = self.hoist(tail, env)
                 p2, c, t = self.tr_st(x, env)
@@ -1409,7 +1488,9 @@ class IxGen:
                        ("record_mut", "add_template_arg"): ("rec_add_targ", ["name", "TemplateArgumentId"]),
                        ("record_mut", "add_parent"): ("rec_add_parent", ["RecordId"]),
                        ("multiclass_mut", "add_template_arg"): ("mc_add_targ", ["name", "TemplateArgumentId"]),
-                       ("multiclass_mut", "add_parent"): ("mc_add_parent", ["MulticlassId"])}
+                       ("multiclass_mut", "add_parent"): ("mc_add_parent", ["MulticlassId"]),
+                       ("defm_mut", "add_parent"): (None, ["MulticlassId"]),        # Defm::parent_list is not in the model
+                       ("defset_mut", "add_def"): (None, ["RecordId"])}             # Defset::def_list (outline) is not in the model
                 if (how, e[2]) not in tab or len(e[3]) != len(tab[(how, e[2])][1]):
                     self.no(line, "method .%s through a %s borrow" % (e[2], how))
                 fn_, want = tab[(how, e[2])]
@@ -1419,6 +1500,8 @@ class IxGen:
                     if t != w:
                         self.no(line, "%s: argument of type %s, expected %s" % (e[2], t, w))
                     cs.append(atom(c))
+                if fn_ is None:
+                    return "%s(ret tt) ;;\n%s" % (indent, rest())
                 return "%s(%s %s (%s %s)) ;;\n%s" % (indent, how, atom(idc), fn_, " ".join(cs), rest())
             # ctx.symbol_map.add_reference(id, loc)
             if e[0] == "mcall" and e[2] == "add_reference" and len(e[3]) == 2 and e[1][0] == "field" and e[1][2] == "symbol_map":
@@ -1430,11 +1513,67 @@ class IxGen:
             pre0, e2 = self.hoist(e, env)
             pre, m, t = self.m_expr(e2, env)
             return "%s%s%s(%s) ;;\n%s" % (indent, pre0, pre, m, rest())
+        if k == "continue":
+            if tail[0] != "unit_tt" or i != len(stmts) - 1:
+                self.no(line, "`continue` outside a for body / not last")
+            return indent + "ret tt"
         if k == "let":
             pat, ty, e, els = s[1], s[2], s[3], s[4]
             if els is not None:
-                self.no(line, "let-else")
+                # let Some(x) = <Option read from the context> else { ..; return v; };
+                if pat[0] != "psome" or pat[1][0] != "pbind" or els[2] is not None or not els[1] or els[1][-1][0] != "return":
+                    self.no(line, "let-else form")
+                pre, c, t = self.tr_st(e, env)
+                if not (isinstance(t, tuple) and t[0] == "opt"):
+                    self.no(line, "let-else on %s" % (t,))
+                no_ = self.seq(els[1][:-1], 0, els[1][-1][1], env, indent + "    ")
+                env[pat[1][1]] = ("v_" + pat[1][1], t[1])
+                return "%s%smatch %s with\n%s| None =>\n%s\n%s| Some v_%s =>\n%s\n%send" % (
+                    indent, pre, c, indent, no_, indent, pat[1][1], self.seq(stmts, i + 1, tail, env, indent + "    "), indent)
             q = e
+            # <record / multiclass handle>.iter_template_arg().map(|id| ctx.symbol_map.template_arg(id)).cloned().collect()
+            if q[0] == "mcall" and q[2] == "collect" and pat[0] == "pbind":
+                chain, x = [], q
+                while x[0] == "mcall":
+                    chain.append(x[2])
+                    x = x[1]
+                if chain == ["collect", "cloned", "map", "iter_template_arg"] and x[0] == "path" and len(x[1]) == 1 and x[1][0] in env \
+                        and env[x[1][0]][1] in (("recH",), ("mcH",)):
+                    cl = q[1][1][3][0]
+                    ok = (cl[0] == "closure" and len(cl[1]) == 1 and cl[1][0][0] == "pbind" and cl[2][0] == "mcall" and cl[2][2] == "template_arg"
+                          and cl[2][1][0] == "field" and cl[2][1][2] == "symbol_map" and cl[2][3] == [("path", [cl[1][0][1]], cl[2][3][0][2])])
+                    if not ok:
+                        self.no(line, "template-argument collection closure")
+                    self.qn = getattr(self, "qn", 0) + 1
+                    rec = env[x[1][0]][1] == ("recH",)
+                    sv, rc = "s_t%d" % self.qn, "rc%d" % self.qn
+                    env[pat[1]] = ("v_" + pat[1], "leaves")
+                    return "%s%s <- state ;; %s <- lift (nthN (%s %s) %s) ;;\n%slet v_%s := targ_leaves %s (%s %s) in\n%s" % (
+                        indent, sv, rc, "s_recs" if rec else "s_mcs", sv, atom(env[x[1][0]][0]), indent, pat[1], sv,
+                        "rc_targs" if rec else "mc_targs", rc, rest())
+                # iter.map(|x| x.index(ctx)).collect()
+                if chain[:2] == ["collect", "map"] and len(q[1][3]) == 1 and q[1][3][0][0] == "closure":
+                    cl = q[1][3][0]
+                    c, t = self.tr(q[1][1], env)
+                    ok = (isinstance(t, tuple) and t[0] == "list" and isinstance(t[1], tuple) and t[1][0] == "node" and len(cl[1]) == 1
+                          and cl[1][0][0] == "pbind" and cl[2][0] == "mcall" and cl[2][2] == "index"
+                          and cl[2][1] == ("path", [cl[1][0][1]], cl[2][1][2]))
+                    if not ok:
+                        self.no(line, "map(..).collect() form")
+                    env[pat[1]] = ("v_" + pat[1], "avs" if t[1][1] == "ArgValue" else ("list", ("opt", IX_TY.get(t[1][1], "unit"))))
+                    return "%sv_%s <- mapM_opt (fun x => %s x) %s ;;\n%s" % (indent, pat[1], self.ix(t[1][1]), atom(c), rest())
+            # opt.and_then(|it| it.index(ctx)).unwrap_or_default()
+            if q[0] == "mcall" and q[2] == "unwrap_or_default" and q[1][0] == "mcall" and q[1][2] == "and_then" and pat[0] == "pbind":
+                cl = q[1][3][0]
+                c, t = self.tr(q[1][1], env)
+                ok = (isinstance(t, tuple) and t[0] == "opt" and isinstance(t[1], tuple) and t[1][0] == "node" and cl[0] == "closure"
+                      and len(cl[1]) == 1 and cl[1][0][0] == "pbind" and cl[2][0] == "mcall" and cl[2][2] == "index"
+                      and cl[2][1] == ("path", [cl[1][0][1]], cl[2][1][2]))
+                if not ok or IX_TY.get(t[1][1]) != "avs":
+                    self.no(line, "and_then(..).unwrap_or_default() form")
+                env[pat[1]] = ("v_" + pat[1], "avs")
+                return "%so <- try_ (q <- lift %s ;; %s q) ;;\n%slet v_%s := match o with Some l => l | None => [] end in\n%s" % (
+                    indent, atom(c), self.ix(t[1][1]), indent, pat[1], rest())
             while q[0] == "mcall" and q[2] == "clone" and not q[3]:
                 q = q[1]
             # <leaf handle>.typ
@@ -1452,6 +1591,33 @@ class IxGen:
                 env[pat[1]] = ("v_" + pat[1], t[1])
                 return "%s%smatch %s with\n%s| None => bad\n%s| Some v_%s =>\n%s\n%send" % (
                     indent, pre, c, indent, indent, pat[1], self.seq(stmts, i + 1, tail, env, indent + "    "), indent)
+            # a value that only feeds the outline (file_to_symbol_list / Defset::def_list), which Scope.v does not model
+            if q[0] == "mcall" and q[2] == "is_some_and" and pat[0] == "pbind":
+                env[pat[1]] = ("tt", ("outline",))
+                return rest()
+            # let x = match <Option> { Some(y) => {..}, None => {..} };  (the arms end in a call)
+            if q[0] == "match" and pat[0] == "pbind" and len(q[2]) == 2:
+                pre, c, t = self.tr_st(q[1], env)
+                if not (isinstance(t, tuple) and t[0] == "opt"):
+                    self.no(line, "let = match on %s" % (t,))
+                texts, rty = [], None
+                for apat, ab in q[2]:
+                    env2 = dict(env)
+                    if apat[0] == "psome" and apat[1][0] == "pbind":
+                        env2[apat[1][1]] = ("v_" + apat[1][1], t[1])
+                        head = "Some v_%s" % apat[1][1]
+                    elif apat[0] == "pnone":
+                        head = "None"
+                    else:
+                        self.no(line, "let = match pattern")
+                    if ab[2] is None:
+                        self.no(line, "let = match arm without a value")
+                    self.last_tail_ty = None
+                    inner = self.seq(ab[1], 0, ab[2], env2, indent + "        ")
+                    rty = self.last_tail_ty
+                    texts.append("%s    | %s =>\n%s" % (indent, head, inner))
+                env[pat[1]] = ("v_" + pat[1], rty)
+                return "%s%sv_%s <- (match %s with\n%s\n%s    end) ;;\n%s" % (indent, pre, pat[1], c, "\n".join(texts), indent, rest())
             tried = False
             if q[0] == "try":
                 q, tried = q[1], True
@@ -1471,7 +1637,7 @@ class IxGen:
                 p2, c, t = pure
                 if pat[0] != "pbind":
                     self.no(line, "let pattern")
-                if isinstance(t, tuple) and t[0] in ("RecordV", "McV", "recH", "leafH", "mutH"):
+                if isinstance(t, tuple) and t[0] in ("RecordV", "McV", "recH", "leafH", "mutH", "mcH"):
                     env[pat[1]] = (c, t)
                     return (indent + pre0 + p2 + "\n" if (pre0 or p2) else "") + rest()
                 env[pat[1]] = ("v_" + pat[1], t)
@@ -1501,16 +1667,25 @@ class IxGen:
                 if b[2] is not None:
                     self.no(line, "`if` block with a value")
                 stm = b[1]
+                if stm and stm[-1][0] == "continue":
+                    return self.seq(stm, 0, tail, env, ind2)
                 if stm and stm[-1][0] == "return":
                     return self.seq(stm[:-1], 0, stm[-1][1], env, ind2)
                 if stm and stm[-1][0] == "expr" and stm[-1][1][0] == "macro" and stm[-1][1][1] == ["panic"]:
+                    # a block that ends in panic!: the `let`s / logging before it only compute the message
+                    if all(x[0] == "let" or (x[0] == "expr" and x[1][0] == "macro" and x[1][1] == ["tracing", "debug"]) for x in stm[:-1]):
+                        return ind2 + "bad"
                     return self.seq(stm, 0, ("path", ["None"], line), env, ind2)
                 return self.seq(stm + stmts[i + 1:], 0, tail, env, ind2)
             if e[0] == "iflet":
                 pat, ex, a, b = e[1], e[2], e[3], e[4]
                 if pat[0] != "psome":
                     self.no(line, "if let pattern")
-                pre, c, t = self.tr_st(ex, env)
+                try:
+                    pre, c, t = self.tr_st(ex, env)
+                except Refuse:
+                    p1, m1, t1 = self.m_expr(ex, env)          # an effectful call: its Option result is observed
+                    pre, c, t = p1 + "o <- try_ (%s) ;; " % m1, "o", ("opt", t1)
                 if not (isinstance(t, tuple) and t[0] == "opt"):
                     self.no(line, "if let Some(..) on %s" % (t,))
                 inner = pat[1]
@@ -1536,15 +1711,19 @@ class IxGen:
                 self.no(line, "for form")
             env2 = dict(env)
             env2[pat[1]] = ("v_" + pat[1], t[1])
-            parts = []
-            for s2 in body[1]:
-                if s2[0] != "expr":
-                    self.no(line, "statement in a for body")
-                pre, m, _ = self.m_expr(s2[1], env2)
-                if pre:
-                    self.no(line, "`?` inside a for body")
-                parts.append("(%s)" % m)
-            return "%siterM (fun v_%s => %s) %s ;;\n%s" % (indent, pat[1], " ;; ".join(parts), atom(c), rest())
+            simple = all(s2[0] == "expr" and not (s2[1][0] == "mcall" and s2[1][1][0] == "path" and len(s2[1][1][1]) == 1
+                                                    and isinstance(env2.get(s2[1][1][1][0], (0, 0))[1], tuple)
+                                                    and env2[s2[1][1][1][0]][1][0] == "mutH") for s2 in body[1])
+            if simple:
+                parts = []
+                for s2 in body[1]:
+                    pre, m, _ = self.m_expr(s2[1], env2)
+                    if pre:
+                        self.no(line, "`?` inside a for body")
+                    parts.append("(%s)" % m)
+                return "%siterM (fun v_%s => %s) %s ;;\n%s" % (indent, pat[1], " ;; ".join(parts), atom(c), rest())
+            btxt = self.seq(body[1], 0, ("unit_tt",), env2, indent + "    ")
+            return "%siterM (fun v_%s =>\n%s) %s ;;\n%s" % (indent, pat[1], btxt, atom(c), rest())
         if k == "return":
             if i != len(stmts) - 1:
                 self.no(line, "statements after return")
@@ -1611,6 +1790,126 @@ class IxGen:
             self.no(line, "match does not cover exactly the variants of %s" % T)
         texts = list(groups.values()) + ([wild] if wild else [])
         return "%smatch %s with\n%s\n%send" % (indent, scrut_code or "self_node", "\n".join(texts), indent)
+
+    def render_ArgValue(self, fn, indent):
+        """ast::ArgValue over CoreAst.arg: PositionalArgValue = APos v r; NamedArgValue = ANamed nm v r when the name is a
+        string / identifier (the bridge has read it: nm), ANamedBad r otherwise"""
+        body = fn["body"]
+        line = fn["line"]
+        if body[1] or body[2] is None or body[2][0] != "match" or body[2][1] != ("path", ["self"], body[2][1][2]) or len(body[2][2]) != 2:
+            self.no(line, "ArgValue::index is expected to be `match self { Positional.. => .., Named.. => .. }`")
+        arms = {}
+        for pat, b in body[2][2]:
+            if pat[0] != "pvariant" or pat[1][:2] != ["ast", "ArgValue"] or len(pat[2]) != 1 or pat[2][0][0] != "pbind":
+                self.no(line, "ArgValue pattern")
+            arms[pat[1][2]] = (pat[2][0][1], b)
+        if sorted(arms) != ["NamedArgValue", "PositionalArgValue"]:
+            self.no(line, "ArgValue variants")
+        x, b = arms["PositionalArgValue"]
+        pos = self.seq(b[1], 0, b[2], {"ctx": ("ctx", "ctx"), x: ("self", ("node", "PositionalArgValue"))}, indent + "    ")
+        x, b = arms["NamedArgValue"]
+        st = b[1]
+        ok = (st and st[0][0] == "let" and st[0][1][0] == "pbind" and st[0][3][0] == "match" and len(st[0][3][2]) == 3)
+        if not ok:
+            self.no(line, "NamedArgValue arm: expected `let name = match <name's simple value> { String, Identifier, _ }` first")
+        nm_var, m = st[0][1][1], st[0][3]
+        # the scrutinee: named.name()?.inner_values().next()?.simple_value()?
+        chain, y = [], m[1]
+        while y[0] in ("try", "mcall"):
+            if y[0] == "mcall":
+                chain.append(y[2])
+            y = y[1]
+        if chain != ["simple_value", "next", "inner_values", "name"] or y != ("path", [x], y[2]):
+            self.no(line, "NamedArgValue: the name is expected to be read as named.name()?.inner_values().next()?.simple_value()?")
+        wild = None
+        for pat, ab in m[2]:
+            if pat[0] == "pwild":
+                wild = ab
+            elif pat[0] == "pvariant" and pat[1] == ["ast", "SimpleValue", "String"] and len(pat[2]) == 1 and pat[2][0][0] == "pbind":
+                v = pat[2][0][1]
+                if ab[1] or ab[2] != ("mcall", ("path", [v], ab[2][1][2]), "value", [], ab[2][4]):
+                    self.no(line, "NamedArgValue: String arm is expected to be name.value()")
+            elif pat[0] == "pvariant" and pat[1] == ["ast", "SimpleValue", "Identifier"] and len(pat[2]) == 1 and pat[2][0][0] == "pbind":
+                v = pat[2][0][1]
+                if ab[1] or ab[2][0] != "try" or ab[2][1] != ("mcall", ("path", [v], ab[2][1][1][2]), "value", [], ab[2][1][4]):
+                    self.no(line, "NamedArgValue: Identifier arm is expected to be name.value()?")
+            else:
+                self.no(line, "NamedArgValue: unexpected arm")
+        if wild is None or wild[2] is not None or not wild[1] or wild[1][-1][0] != "return":
+            self.no(line, "NamedArgValue: the `_` arm is expected to end in return")
+        envn = {"ctx": ("ctx", "ctx"), x: ("self", ("node", "NamedArgValue")), nm_var: ("v_nm", "name")}
+        named = self.seq(st[1:], 0, b[2], envn, indent + "    ")
+        bad_ = self.seq(wild[1][:-1], 0, wild[1][-1][1], {"ctx": ("ctx", "ctx"), x: ("self", ("node", "NamedArgValue"))}, indent + "    ")
+        return ("%smatch self_node with\n%s| APos v_pv v_ar =>\n%s\n%s| ANamed v_nm v_nv v_ar =>\n%s\n%s| ANamedBad v_ar =>\n%s\n%send"
+                % (indent, indent, pos, indent, named, indent, bad_, indent))
+
+    def render_Include(self, fn, indent):
+        """ast::Include over SInclude r target: the database lookups (resolved_include_map / IncludeId / get) are the field
+        `target`, `ctx.db.parse(f)` + `SourceFile::cast(..)?` is the statement list of file f in the workspace [db_files]"""
+        b = fn["body"]
+        line = fn["line"]
+        st = b[1]
+        def is_let(x, name=None):
+            return x[0] == "let" and x[1][0] in ("pbind", "psome") and (name is None or x[1] == ("pbind", name))
+        # 1-3: let file_id = ctx.current_file_id(); let include_map = ctx.db.resolved_include_map(file_id); let include_id = IncludeId(..self.syntax()..);
+        ok = (len(st) >= 9 and is_let(st[0]) and st[0][3][0] == "mcall" and st[0][3][2] == "current_file_id"
+              and is_let(st[1]) and st[1][3][0] == "mcall" and st[1][3][2] == "resolved_include_map"
+              and is_let(st[2]) and st[2][3][0] == "call" and st[2][3][1][1] == ["IncludeId"])
+        if not ok:
+            self.no(line, "Include::index: expected the three lets that look the include up in the database")
+        # 4: let Some(f) = include_map.get(&include_id).copied() else { ..error..; return None; };
+        s4 = st[3]
+        ok = (s4[0] == "let" and s4[1][0] == "psome" and s4[1][1][0] == "pbind" and s4[4] is not None and s4[3][0] == "mcall" and s4[3][2] == "copied"
+              and s4[3][1][0] == "mcall" and s4[3][1][2] == "get" and s4[3][1][1] == ("path", [st[1][1][1]], s4[3][1][1][2]))
+        if not ok:
+            self.no(line, "Include::index: expected `let Some(f) = include_map.get(&include_id).copied() else {..}`")
+        f = s4[1][1][1]
+        els = s4[4]
+        # the else block: a `let path = ..` for the message, ctx.error(self.syntax().text_range(), ..), return None
+        errs = [x for x in els[1] if x[0] == "expr"]
+        if len(errs) != 1 or els[1][-1][0] != "return" or any(x[0] not in ("let", "expr", "return") for x in els[1]):
+            self.no(line, "Include::index: else block of the lookup")
+        env0 = {"ctx": ("ctx", "ctx"), "self": ("self", ("node", "Include"))}
+        no_ = self.seq([errs[0]], 0, els[1][-1][1], env0, indent + "    ")
+        env1 = dict(env0)
+        env1[f] = ("v_" + f, "FileId")
+        rest = self.include_rest(st[4:], b[2], env1, indent + "    ", f)
+        return "%smatch n_target with\n%s| None =>\n%s\n%s| Some v_%s =>\n%s\n%send" % (indent, indent, no_, indent, f, rest, indent)
+
+    def include_rest(self, st, tail, env, indent, f):
+        if not st:
+            return self.seq([], 0, tail, env, indent)
+        x = st[0]
+        line = x[-1] if isinstance(x[-1], int) else 0
+        rest = lambda: self.include_rest(st[1:], tail, env, indent, f)
+        # if !ctx.indexed_files.insert(f) { return None; }
+        if x[0] == "ifstmt" and x[1][0] == "if" and x[1][1][0] == "un" and x[1][1][1] == "!" and x[1][1][2][0] == "mcall" \
+                and x[1][1][2][2] == "insert" and x[1][1][2][1][0] == "field" and x[1][1][2][1][2] == "indexed_files" and x[1][3] is None:
+            a, ta = self.tr(x[1][1][2][3][0], env)
+            blk = x[1][2]
+            if ta != "FileId" or blk[2] is not None or len(blk[1]) != 1 or blk[1][0][0] != "return":
+                self.no(line, "indexed_files.insert form")
+            yes = self.seq([], 0, blk[1][0][1], env, indent + "    ")
+            return ("%ss_i <- state ;; if existsb (N.eqb %s) (s_indexed s_i) then\n%s\n%selse\n%s    (upd (fun s => set_files (s_trace s) (%s :: s_indexed s) s)) ;;\n%s"
+                    % (indent, atom(a), yes, indent, indent, atom(a), rest().replace("\n", "\n    ") if False else rest()))
+        # let parse = ctx.db.parse(f); let source_file = ast::SourceFile::cast(parse.syntax_node())?;
+        if x[0] == "let" and x[3][0] == "mcall" and x[3][2] == "parse" and len(st) > 1 and st[1][0] == "let" and st[1][3][0] == "try" \
+                and st[1][3][1][0] == "call" and st[1][3][1][1][1] == ["ast", "SourceFile", "cast"]:
+            a, ta = self.tr(x[3][3][0], env)
+            if ta != "FileId":
+                self.no(line, "ctx.db.parse(%s)" % (ta,))
+            v = st[1][1][1]
+            env[v] = ("v_" + v, ("node", "SourceFile"))
+            return "%sv_%s <- lift (nthN db_files %s) ;;\n%s" % (indent, v, atom(a), self.include_rest(st[2:], tail, env, indent, f))
+        if x[0] == "expr" and x[1][0] == "mcall" and x[1][1] == ("path", ["ctx"], x[1][1][2]) and x[1][2] == "push_file":
+            a, ta = self.tr(x[1][3][0], env)
+            return "%s(push_file %s) ;;\n%s" % (indent, atom(a), rest())
+        if x[0] == "expr" and x[1][0] == "mcall" and x[1][1] == ("path", ["ctx"], x[1][1][2]) and x[1][2] == "pop_file":
+            return "%s(pop_file) ;;\n%s" % (indent, rest())
+        if x[0] == "expr" and x[1][0] == "mcall" and x[1][2] == "index" and x[1][1][0] == "path" and len(x[1][1][1]) == 1 \
+                and env.get(x[1][1][1][0], (0, 0))[1] == ("node", "SourceFile"):
+            return "%s(%s %s) ;;\n%s" % (indent, self.ix("StatementList"), env[x[1][1][1][0]][0], rest())
+        self.no(line, "Include::index: statement outside the subset")
 
     def dispatch(self, e, env, indent):
         """match self { ast::T::V(x) => x.index(ctx), .. }"""
@@ -1706,12 +2005,15 @@ def translate(repo):
     ig.rendered = set()
     sec = ["", "Section IndexRs.",
            "  (* the indexing of child nodes (`child.index(ctx)`): parameters of every rendering below *)"]
+    sec.append("  Variable db_files : list (list stmt).      (* the parsed files of the workspace (ctx.db.parse), by file number *)")
     for T, rt in IX_RET.items():
         sec.append("  Variable ix_%s : %s -> M %s." % (T, NODE_COQ[T], rt))
     for v in ("Include", "Def", "Defm", "Assert", "Class", "Defset", "Defvar", "Dump", "Foreach", "If", "Let", "MultiClass"):
         sec.append("  Variable ix_stmt_%s : stmt -> M unit." % v)
     for v in ("FieldDef", "FieldLet"):
         sec.append("  Variable ix_stmt_%s : item -> M unit." % v)
+    for fnm, (cty, _, _) in FREE_FNS.items():
+        sec.append("  Variable ix_%s : %s." % (fnm, cty))
     sec.append("")
     items = []
     if "utils" in idx["mods"]:
@@ -1736,10 +2038,16 @@ def translate(repo):
             continue
         try:
             ig.used = []
-            if T is None and label == "utils::identifier":
+            if T in ("ArgValue", "Include"):
+                env, params, name, ret = {}, [], "", ""
+            elif T is None and label == "utils::identifier":
                 env = {"identifier": ("self", ("node", "Identifier")), "ctx": ("ctx", "ctx")}
                 params = NODES["Identifier"][0]
                 name, ret = "src_utils_identifier", "(name * rng)"
+            elif T is None and label in ("resolve_class_ref_as_class", "resolve_class_ref_as_multiclass"):
+                env = {"class_ref": ("self", ("node", "ClassRef")), "ctx": ("ctx", "ctx")}
+                params = NODES["ClassRef"][0]
+                name, ret = "src_" + label, "N"
             elif T is None and label == "index_name_value":
                 env = {"value": ("v_value", ("node", "Value")), "ctx": ("ctx", "ctx")}
                 params = [("v_value", "value")]
@@ -1751,7 +2059,14 @@ def translate(repo):
             else:
                 raise Refuse("%s:%d: no entry in the node table" % (INDEX, fn["line"]))
             body = fn["body"]
-            text = ig.seq(body[1], 0, body[2], env, "    ")
+            if T == "ArgValue":
+                params, name, ret = [("self_node", "arg")], "src_ix_ArgValue", "argv"
+                text = ig.render_ArgValue(fn, "    ")
+            elif T == "Include":
+                params, name, ret = [("n_r", "rng"), ("n_target", "option N")], "src_ix_Include", "unit"
+                text = ig.render_Include(fn, "    ")
+            else:
+                text = ig.seq(body[1], 0, body[2], env, "    ")
             sec.append("  (* %s: %s *)" % (INDEX, label))
             sec.append("  Definition %s %s : M %s :=\n%s.\n" % (name, " ".join("(%s : %s)" % p for p in params), ret, text))
             rendered.append(label)
